@@ -32,7 +32,7 @@ desc = json.loads(sys.stdin.read())
 with quiet():
     b = build(desc)
     out = sp.synthesize_trials(b.block, 2, getattr(sp, sys.argv[1]))
-print('CHILD-RETURNED', len(out))
+print('CHILD-RETURNED', json.dumps([{str(k): len(v) for k, v in s.items()} for s in out]))
 '''
 
 
@@ -46,6 +46,21 @@ def child_run(desc, strat, timeout=120):
     if 'Error' in out and 'Traceback' in out:
         return f'raised {last[0][:150]}'
     return f'interpreter ended (exit status {p.returncode}) before synthesize_trials returned: {last[0][:120]}'
+
+
+def child_lengths(desc, strat, timeout=120):
+    """Column lengths of the sequences a strategy returns, computed in a child process with a hard time limit (a native
+    sampler can neither be interrupted by a Python signal handler nor be trusted not to end the interpreter).
+    None when the child did not return."""
+    try:
+        p = subprocess.run([sys.executable, '-W', 'ignore', '-c', CHILD % ROOT, strat], input=json.dumps(desc),
+                           capture_output=True, text=True, timeout=timeout, env=dict(os.environ, PYTHONWARNINGS='ignore'))
+    except subprocess.TimeoutExpired:
+        return None
+    for line in (p.stdout or '').splitlines():
+        if line.startswith('CHILD-RETURNED '):
+            return json.loads(line[len('CHILD-RETURNED '):])
+    return None
 
 
 def synth(sub, desc):
